@@ -9,6 +9,7 @@ from .srcmodel import AnalysisError, FuncInfo, Model, norm, walk_no_nested
 
 READER = "sansldap.asn1.ASN1Reader"
 NOT_ENOUGH = "sansldap.asn1.NotEnougData"
+from .anchors import is_incomplete  # noqa: E402
 
 
 def view_store_methods(model: Model) -> List[FuncInfo]:
@@ -182,7 +183,7 @@ def helper_consumed_exact(model: Model, fi: FuncInfo, depth: int) -> Tuple[bool,
                     if txt in ((f"len({base})", "Lt", dlen), (dlen, "Gt", f"len({base})")):
                         ex = n.body[-1].exc
                         exq = model.resolve_name(fi.module, norm(ex.func if isinstance(ex, ast.Call) else ex)) if ex is not None else None
-                        if exq == NOT_ENOUGH and n.lineno > adv[0].lineno and n.lineno < r.lineno:
+                        if is_incomplete(model, exq) and n.lineno > adv[0].lineno and n.lineno < r.lineno:
                             guards.append(n)
             if not guards:
                 return False, f"no `if len({base}) < {dlen}: raise NotEnougData` between the advance and the return (silent clamping)", ""
@@ -350,7 +351,7 @@ def lemma_identity_before_completeness(model: Model, run: Run) -> None:
     ne, other = [], []
     for r in raises:
         q = model.resolve_name(fi.module, norm(r.exc.func if isinstance(r.exc, ast.Call) else r.exc))
-        (ne if q == NOT_ENOUGH else other).append(r)
+        (ne if is_incomplete(model, q) else other).append(r)
     run.coverage["validating_helper_raises"] = {"incomplete": len(ne), "rejecting": len(other)}
     for r in other:
         late = [x for x in ne if x.lineno < r.lineno]
